@@ -2,6 +2,8 @@ package checks
 
 import (
 	"fmt"
+	"reflect"
+	"runtime"
 	"testing"
 
 	"pgregory.net/rapid"
@@ -199,6 +201,30 @@ func runC10(w *worker) func(c c10Case) *Failure {
 		if f != nil {
 			return f
 		}
+		// the defaults a decoded object shows are its own: after the caller has overwritten, in place,
+		// every binary value of one decoded object (declared defaults included), the next object decoded
+		// from the same message still reads the declared defaults
+		if verdict.Kind == core.VOK {
+			d1 := newDest(b)
+			if _, err, f := fDecode(append([]byte{}, c.Msg...), d1.Interface()); f != nil || err != nil {
+				if f != nil {
+					return f
+				}
+				return failf("wellformed-rejected", "second decode of an accepted message failed: %v", err)
+			}
+			n := 0
+			if f := safely("overwriting the binaries of a decoded object", func() { n = scribbleBinaries(c.S, d1.Elem()) }); f != nil {
+				return f
+			}
+			if n > 0 {
+				if _, f := checkDecodeAgainstModel(decCase{S: c.S, Msg: c.Msg, Prior: c.Prior}); f != nil {
+					f.Msg = "after the binary values of an earlier decoded object were overwritten in place: " + f.Msg
+					return f
+				}
+				w.label("decoded-again-after-overwriting-binaries")
+			}
+			runtime.KeepAlive(d1)
+		}
 		eq, diff, nestedInit := 0, 0, false
 		for _, fl := range c.S.Fields {
 			if fl.Req == core.Optional && !fl.GoPtr && c.S.HasInit {
@@ -237,4 +263,61 @@ func runC10(w *worker) func(c c10Case) *Failure {
 func TestC10(t *testing.T) {
 	w := newWorker(t, "C10")
 	drive(t, caseRunner[c10Case]{w: w, gen: genC10, run: runC10(w), journalled: true})
+}
+
+// scribbleBinaries inverts, in place, every byte of every binary value reachable from the
+// struct (through pointers, containers and nested structs); returns the number of bytes touched.
+func scribbleBinaries(s *core.StructSpec, rv reflect.Value) int {
+	b := core.Bind(s)
+	if !rv.CanAddr() {
+		return 0 // a struct held by value in a map: its binaries are reached through a copy, same backing arrays
+	}
+	n := 0
+	var val func(ts *core.TypeSpec, rv reflect.Value)
+	val = func(ts *core.TypeSpec, rv reflect.Value) {
+		switch ts.Kind {
+		case core.KBinary:
+			if rv.Kind() == reflect.Slice && !rv.IsNil() {
+				bs := rv.Bytes()
+				for i := range bs {
+					bs[i] ^= 0xff
+				}
+				n += len(bs)
+			}
+		case core.KList, core.KSet:
+			for i := 0; i < rv.Len(); i++ {
+				val(ts.Elem, rv.Index(i))
+			}
+		case core.KMap:
+			it := rv.MapRange()
+			for it.Next() {
+				val(ts.Elem, it.Value())
+			}
+		case core.KStruct:
+			if ts.Ptr {
+				if rv.IsNil() {
+					return
+				}
+				rv = rv.Elem()
+			}
+			if rv.CanAddr() {
+				n += scribbleBinaries(ts.SS(), rv)
+			} else {
+				c := reflect.New(rv.Type()).Elem()
+				c.Set(rv)
+				n += scribbleBinaries(ts.SS(), c)
+			}
+		}
+	}
+	for _, f := range s.Fields {
+		fv := rv.Field(b.FieldIndex(f.ID))
+		if f.GoPtr {
+			if fv.IsNil() {
+				continue
+			}
+			fv = fv.Elem()
+		}
+		val(f.Type, fv)
+	}
+	return n
 }
